@@ -247,6 +247,16 @@ Proof.
 Qed.
 Print Assumptions C09_pinned_encoder_name_by_spelling_refuted.
 
+(* 20b. REFUTED for the pre-repair naming of floats: -0.0 and 0.0 are equal (==, same hash: one call, one module) and
+        str() / json.dumps write them differently, so the readable name `f=-0.0` / `f=0.0` (and likewise the digest) was
+        that of whichever was called first.  The repaired code names both as 0.0 (params.py:_named_value): one key. *)
+Theorem C09_negative_zero_named_by_spelling_refuted :
+  exists a b, valid DFloat a = true /\ valid DFloat b = true /\ inst_eqb a b = true /\ hash_eqb a b = true /\
+              render a <> render b /\
+              ParamName.norm DFloat a = ParamName.norm DFloat b /\ ParamName.norm DFloat a = Ok (VFloat "0.0").
+Proof. exists (VFloat "-0.0"), (VFloat "0.0"). repeat split; try (vm_compute; reflexivity). vm_compute. discriminate. Qed.
+Print Assumptions C09_negative_zero_named_by_spelling_refuted.
+
 (* 21. why 14 / 15 need the 20-places condition: 1E-21 and 0 compare equal (Prefixed.__eq__ rounds to 20 places)
        without being equal; their hashes differ, so the dict lookup misses: two calls, two keys, two modules, two
        names (13 still holds) *)
